@@ -385,6 +385,8 @@ func nestCases(e *lib.Env) []cspec {
 //     an HTML expression in PHP code and inside a <!DOCTYPE document (HTML lexer);
 //   - interp: bodies of the three interpolation forms {$..} ${..} @{..} and of $var suffixes
 //     inside double-quoted strings and heredocs, including empty and unterminated ones;
+//   - strtail: literal / heredoc / HTML-text bodies that end exactly in an interpolation opener
+//     or in a proper prefix of an interpolation form, LF and CRLF;
 //   - tagpos: inline HTML made of invalid UTF-8 / case-changing runes in front of an opening
 //     tag that sits in the last bytes of the text (offset arithmetic of the tag search).
 func enumFamilies() []cspec {
@@ -431,6 +433,57 @@ func enumFamilies() []cspec {
 		add("interp", fmt.Sprintf("dq-assign:%d", bi), "<?php\n$a = 1;\n$s = \"x "+b+"\" . 'y';\necho 1;\n", true)
 		add("interp", fmt.Sprintf("heredoc:%d", bi), "<?php\n$a = [1];\n$s = <<<EOT\nl "+b+" r\nEOT;\necho 1;\n", true)
 		add("interp", fmt.Sprintf("html:%d", bi), "<div class=\"c\">t "+b+"</div>\n", true)
+	}
+	// strtail: string / heredoc / nowdoc / backtick / HTML-text bodies that END exactly in an
+	// interpolation opener or in a proper prefix of a well-formed interpolation form (and bodies
+	// that consist only of it): the look-ahead of the string splitter at the last runes of a body.
+	forms := []string{
+		`{$x}`, `{$x->y}`, `{$x["k"]}`, `{$x[0][1]}`, `{$x->m(1)}`, `{$x}{$y}`, `{$$x}`, `${x}`, `${x[0]}`, `@{$x + 1}`, `@{f()}`,
+		`$x[0]`, `$x[k]`, `$x['k']`, `$x->y`, `$x->y->z`, `$$x`, `$.SERVER($x)`, `\\{$x}`, `\\$x`, `\\\\`, "{$\u53d8\u91cf}", "$\u53d8",
+	}
+	tailSet := map[string]bool{}
+	var tails []string
+	addTail := func(t string) {
+		if !tailSet[t] {
+			tailSet[t] = true
+			tails = append(tails, t)
+		}
+	}
+	for _, o := range []string{"$", "{", "{$", "${", "@", "@{", "$x", "$x[", "$x->", "{$x", "{$x->", "\\", "\\{", "\\$", "$.", "$.SERVER", "$.SERVER(", "{{", "{$$", "$$", "@{$", "}", "{}", "{$}"} {
+		addTail(o)
+	}
+	for _, f := range forms {
+		for i := 1; i <= len(f); i++ { // byte-level proper prefixes (and the whole form)
+			addTail(f[:i])
+		}
+	}
+	type wrap struct{ name, open, close string }
+	for _, eol := range []struct{ name, nl string }{{"lf", "\n"}, {"crlf", "\r\n"}} {
+		nl := eol.nl
+		wrapsT := []wrap{
+			{"sq", "$s = '", "';" + nl + "echo 1;" + nl},
+			{"dq", "$s = \"", "\";" + nl + "echo 1;" + nl},
+			{"dq-echo", "echo \"", "\", 1;" + nl},
+			{"bt", "$s = `", "`;" + nl + "echo 1;" + nl},
+			{"heredoc", "$s = <<<EOT" + nl, nl + "EOT;" + nl + "echo 1;" + nl},
+			{"heredoc-q", "$s = <<<\"EOT\"" + nl, nl + "EOT;" + nl + "echo 1;" + nl},
+			{"nowdoc", "$s = <<<'EOT'" + nl, nl + "EOT;" + nl + "echo 1;" + nl},
+			{"bytes", "$s = b'", "';" + nl + "echo 1;" + nl},
+		}
+		for _, w := range wrapsT {
+			for pi, pre := range []string{"", "Hello ", "a" + nl + "b "} {
+				for ti, t := range tails {
+					run := eol.name == "lf" && pi == 1
+					add("strtail", fmt.Sprintf("%s:%s:%d:%d", eol.name, w.name, pi, ti), "<?php"+nl+"$x = [[1, 2], \"k\" => 1];"+nl+w.open+pre+t+w.close, run)
+				}
+			}
+		}
+		// HTML text and attribute values ending in the tail
+		for ti, t := range tails {
+			add("strtail", fmt.Sprintf("%s:html-text:%d", eol.name, ti), "<div class=\"c\">Hello "+t+"</div>"+nl, eol.name == "lf")
+			add("strtail", fmt.Sprintf("%s:html-attr:%d", eol.name, ti), "<div title=\"Hello "+t+"\">x</div>"+nl, false)
+			add("strtail", fmt.Sprintf("%s:doctype-text:%d", eol.name, ti), "<!DOCTYPE html>"+nl+"<html><body><p>"+t+"</p></body></html>"+nl, false)
+		}
 	}
 	junk := []string{"\xff", "\xe3\x80", "\xc4\xb0", "\xe2\x84\xaa", "\xc3", "\xf0\x9f", "A\xff", "<\xff?", "<?\xff"}
 	tails := []string{"<?php", "<?php ", "<?php 1;", "<?php echo 1;", "<?php echo 1; ?>x", "<?PHP echo 1;", "<?Php 1;", "<?php\n", "<?php ?>", "<?php echo 1; ?>\xff<?php 2;"}
